@@ -338,6 +338,32 @@ class CFG:
         return out
 
 
+def path_conditions(cfg: "CFG", n: int) -> List[Tuple[ast.expr, bool]]:
+    """branch_conditions(n) without the noise: constant tests (`while True`) and the negative
+    side of guards whose body only raises (`if too_short: raise …` does not *select* what
+    follows, it rejects)."""
+    out = []
+    for h in cfg.dominators().get(n, ()):  # same walk as branch_conditions, but with the header
+        hn = cfg.nodes[h]
+        if hn.kind not in ("if", "while") or h == n:
+            continue
+        ts = [s for s in cfg.succ[h] if cfg.label.get((h, s)) == "T"]
+        fs = [s for s in cfg.succ[h] if cfg.label.get((h, s)) == "F"]
+        via_t = any(n in cfg.reachable(s, blocked=[h]) or s == n for s in ts)
+        via_f = any(n in cfg.reachable(s, blocked=[h]) or s == n for s in fs)
+        if via_t == via_f:
+            continue
+        test = hn.expr
+        if isinstance(test, ast.Constant):
+            continue
+        st = hn.stmt
+        if via_f and isinstance(st, ast.If) and st.body and all(
+                isinstance(b, ast.Raise) for b in st.body) and not st.orelse:
+            continue
+        out.append((test, via_t))
+    return out
+
+
 # ------------------------------------------------------- definite assignment
 def _targets(t: ast.AST) -> List[str]:
     if isinstance(t, ast.Name):
